@@ -189,6 +189,40 @@ func init() {
 			fv.used("lo.UniqBy(s, key): a new slice of elements of s in which every key of s occurs (key = the contract of the key function)")
 			return true
 		},
+		"github.com/samber/lo.Difference": func(fv *FV, st *State, ins ssa.CallInstruction, v ssa.Value, callee *ssa.Function, args []string) bool {
+			cc := ins.Common()
+			sl, ok := cc.Args[0].Type().Underlying().(*types.Slice)
+			if !ok {
+				return false
+			}
+			if _, isSt := sl.Elem().Underlying().(*types.Struct); isSt {
+				return false
+			}
+			f := fv.elemFam(sl.Elem())
+			a, b := args[0], args[1]
+			at := func(s, i string) string { return fv.read(st, f, sx("s-base", s), sx("+", sx("s-off", s), i)) }
+			inR := func(s, i string) string { return and(sx("<=", "0", i), sx("<", i, sx("s-len", s))) }
+			// two new slices; only their emptiness is characterised: left is empty iff every element of a occurs in b, and symmetrically
+			mk := func(name string) string {
+				nb := fv.alloc(st)
+				n := fv.freshConst(name, "Int")
+				fv.assume(st, sx("<=", "0", n))
+				return sx("mk-slice", nb, "0", n, n)
+			}
+			left, right := mk("diffl"), mk("diffr")
+			sub := func(x, y string) string {
+				qi, qj := fv.fresh("q!i"), fv.fresh("q!m")
+				return fmt.Sprintf("(forall ((%s Int)) (! %s :pattern ((no-trigger %s))))", qi, implies(inR(x, qi), fmt.Sprintf("(exists ((%s Int)) %s)", qj, and(inR(y, qj), eq(at(y, qj), at(x, qi))))), qi)
+			}
+			// (two implications each, so that the universal one is in positive position for the instance generator)
+			fv.assume(st, implies(eq(sx("s-len", left), "0"), sub(a, b)))
+			fv.assume(st, implies(not(eq(sx("s-len", left), "0")), not(sub(a, b))))
+			fv.assume(st, implies(eq(sx("s-len", right), "0"), sub(b, a)))
+			fv.assume(st, implies(not(eq(sx("s-len", right), "0")), not(sub(b, a))))
+			fv.setResults(st, v, []string{left, right})
+			fv.used("lo.Difference(a, b): the first result is empty iff every element of a occurs in b, the second iff every element of b occurs in a")
+			return true
+		},
 		"sort.Strings": func(fv *FV, st *State, ins ssa.CallInstruction, v ssa.Value, callee *ssa.Function, args []string) bool {
 			cc := ins.Common()
 			sl, ok := cc.Args[0].Type().Underlying().(*types.Slice)
